@@ -31,6 +31,7 @@ def run(ctx):
     lib_py.null_index(ctx, py)
     lib_py.unused_params(ctx, py, mods=("trees",), only=ps)
     lib_py.kw_forward(ctx, py, mods=("trees",), only=ps)
+    lib_variant.sample_walks(ctx, P, tus=("trees",), floor=2)
     lib_module.name_agreement(ctx, P, classes=("Tree",), floor=40)
     lib_py.facade_names(ctx, py, P, classes=(("trees", "Tree"),), floor=40)
     lib_mem.c_lints(ctx, ctx.program(), scopes.lib_scope("C01"))
